@@ -229,10 +229,10 @@ namespace GeographicLib {
       deltaY *= f;
       deltaZ *= f;
       if (correct) {
-        invR = _gGMmodel * _dzonal0 * invR * invR * invR;
-        deltaX += X * invR;
-        deltaY += Y * invR;
-        deltaZ += Z * invR;
+        real invR3 = _gGMmodel * _dzonal0 * invR * invR * invR;
+        deltaX += X * invR3;
+        deltaY += Y * invR3;
+        deltaZ += Z * invR3;
       }
     } else
       T = _disturbing(-1, X, Y, Z);
